@@ -153,6 +153,40 @@ fn boxed_history(p: &Value) -> Outcome {
     o
 }
 
+/// recording conditional over a zero-sized element type (`()`): the step is implemented for every element
+/// type, so a state of n unit values still has n coordinates, each of which is asked for once per step
+#[derive(Clone)]
+struct UnitCond {
+    log: Arc<Mutex<Vec<(u64, usize, Vec<f64>, f64)>>>,
+}
+impl Conditional<()> for UnitCond {
+    fn sample(&mut self, index: usize, given: &[()]) -> () {
+        self.log.lock().unwrap().push((1, index, vec![0.0; given.len()], 0.0));
+    }
+}
+fn unit_history(p: &Value) -> Outcome {
+    use rand::SeedableRng;
+    let mut o = Outcome::default();
+    let d = pus(p, "d");
+    let log = Arc::new(Mutex::new(vec![]));
+    let mut chain = GibbsMarkovChain { target: UnitCond { log: log.clone() }, current_state: vec![(); d], seed: pu(p, "chain_seed"), rng: rand::rngs::SmallRng::seed_from_u64(1) };
+    let before = vec![0.0f64; d];
+    for _ in 0..pus(p, "steps") {
+        log.lock().unwrap().clear();
+        let n_after = chain.step().len();
+        let calls = log.lock().unwrap().clone();
+        check_step(&mut o, d, &before, &calls, &vec![0.0f64; n_after], "GibbsMarkovChain::step[()]");
+        o.work += 1;
+        if !o.violations.is_empty() {
+            break;
+        }
+    }
+    o.hash = str_hash(&p.to_string());
+    o.nontrivial = d >= 2;
+    o.count("probe_zero_sized_element_type", 1);
+    o
+}
+
 struct CallHistory;
 fn call_history<S: GElt + ndarray::LinalgScalar>(p: &Value, ws: bool) -> Outcome {
     let mut o = Outcome::default();
@@ -304,7 +338,7 @@ impl Scenario for CallHistory {
     }
     fn generate(&self, g: &mut Gen, _t: Tier, _i: u64) -> Value {
         let cs = crate::props::c07::special_seed(g, 4);
-        json!({"elt": *g.pick(&["f64", "f64", "f32", "i32", "usize", "boxed"]), "d": crate::core::size(g, 1, 64, 300), "steps": g.usize(1, 20), "chain_seed": cs.to_string(), "nan_answers": g.bool(1, 3)})
+        json!({"elt": *g.pick(&["f64", "f64", "f32", "i32", "usize", "boxed", "unit"]), "d": crate::core::size(g, 1, 64, 300), "steps": g.usize(1, 20), "chain_seed": cs.to_string(), "nan_answers": g.bool(1, 3)})
     }
     fn execute(&self, p: &Value, ws: bool) -> Outcome {
         match ps(p, "elt") {
@@ -312,6 +346,7 @@ impl Scenario for CallHistory {
             "i32" => call_history::<i32>(p, ws),
             "usize" => call_history::<usize>(p, ws),
             "boxed" => boxed_history(p),
+            "unit" => unit_history(p),
             _ => call_history::<f64>(p, ws),
         }
     }
